@@ -313,3 +313,67 @@ def run_C16(tier, seed, t0):
                   stubs=STUBS_ASM,
                   assumptions=['inductive step: if one call from the import-time state leaves the state unchanged, histories of any length do'] + STUBS_ASM,
                   outside=['PYTHONHASHSEED independence (needs separate processes; no solver formulation)', 'state outside the asm module (logging configuration, os)'])
+
+
+def run_C17(tier, seed, t0):
+    from .cli import PROGRAMS, ARGVS
+    combos = [(pg, av) for pg in PROGRAMS for av in ARGVS]
+    if tier != 'thorough':
+        keep = {('range', a) for a in ARGVS} | {(pg, 'o_l') for pg in PROGRAMS} | {(pg, 'l_hex') for pg in PROGRAMS} | \
+               {('data', 'o_hex_bad'), ('li_label', 'hex_bad_l'), ('included', 'i_dir'), ('ok_only', 'defs_v'), ('parse', 'i_bad'), ('li_label', 'default')}
+        combos = [c for c in combos if c in keep]
+    specs = [('harness.cli', 'cli_task', c) for c in combos]
+    res = pmap(specs)
+    return finish('C17', tier, seed, res, t0,
+                  bounds=dict(programs=len(PROGRAMS), option_sets=len(ARGVS), combinations=len(combos),
+                              symbolic='a signed 40-bit operand in the program (decides which pass refuses it) and the -c flag',
+                              old_files='bb.out, out.bin, labels.txt and both .hex files exist beforehand'),
+                  stubs=STUBS_ASM + ['virtual file system recording every open-for-write and write', 'intelhex.bin2hex replaced by a recorder (third-party code)',
+                                     'a formatted symbolic integer is a token that records value and format spec', 'logging.basicConfig is a no-op'],
+                  assumptions=['the Intel HEX encoding itself is third-party code: only the call (paths, offset, after the binary was written) is checked'] + STUBS_ASM,
+                  outside=['Intel HEX content', 'real process exit codes (in-process SystemExit is observed)', 'I/O errors of the operating system'])
+
+
+DFU_STUBS = ['usb.core / usb.backend: in-memory DfuSe device model (DFU 1.1 state diagram + DfuSe erase 0x41 / set-address 0x21 / download wValue>=2) with monitors',
+             'dfu.time.sleep records its argument; dfu.open returns an opaque firmware of the chosen length; dfu.print records lines',
+             'dfu.struct.unpack of a status response yields the model\'s symbolic fields; STATUS/STATE_DESCRIPTION lookups with a symbolic key fork over the keys',
+             'a DFU_DNLOAD sent while the device is in dfuERROR stalls (USBError), as the DFU specification prescribes']
+
+
+def run_C18(tier, seed, t0):
+    if tier == 'thorough':
+        lengths = list(range(0, 3074))
+        K = 2
+    else:
+        lengths = [0, 1, 2, 511, 1022, 1023, 1024, 1025, 1026, 2047, 2048, 2049, 3071, 3072]
+        K = 1
+    specs = []
+    for L in lengths:
+        specs.append(('harness.dfu', 'dfu_task', ('C18', L, 'sym' if L <= 1025 and tier != 'thorough' else (L % 4), K, None, 'one')))
+        if tier != 'thorough' or L % 64 in (0, 1, 63):
+            specs.append(('harness.dfu', 'dfu_task', ('C18', L, L % 4, K, None, 'all')))
+    for v in range(4):
+        for L in ('capacity', 'capacity-1', 'capacity-1023', 'capacity-1024'):
+            specs.append(('harness.dfu', 'dfu_task', ('C18', L, v, 0, None, 'one')))
+    res = pmap(specs)
+    return finish('C18', tier, seed, res, t0,
+                  bounds=dict(lengths='%d concrete lengths (%s) plus capacity, capacity-1, capacity-1023, capacity-1024 for each of the four flash-size variants' % (len(lengths), 'all of 0..3073' if tier == 'thorough' else 'page-boundary cases up to 3 pages'),
+                              content='opaque (uninterpreted) firmware bytes', variant='symbolic for short images, each for the capacity cases',
+                              timing='poll timeout of every status response symbolic 24-bit; busy polls: one symbolically chosen operation needs 0..%d polls, or every operation needs the same 0..%d polls; device may start in dfuERROR (symbolic)' % (K, K)),
+                  stubs=DFU_STUBS,
+                  assumptions=['the device model is the contract of DESIGN.md 4.5'] + DFU_STUBS,
+                  outside=['images between 3 KiB and the capacity edge cases', 'two or more differently slow operations in one run', 'USB transport errors'])
+
+
+def run_C19(tier, seed, t0):
+    K = 1 if tier == 'thorough' else 0
+    specs = [('harness.dfu', 'dfu_task', ('C19', 'oversize', 'sym', 0, None, 'one'))]
+    for L in ([1, 1024, 1025, 2049] if tier != 'thorough' else [1, 2, 1023, 1024, 1025, 2048, 2049, 3072, 3073]):
+        specs.append(('harness.dfu', 'dfu_task', ('C19', L, L % 4, K, 'single', 'one')))
+    res = pmap(specs)
+    return finish('C19', tier, seed, res, t0,
+                  bounds=dict(oversize='symbolic length > capacity for every variant (one path covers all oversize lengths up to 2^30)',
+                              injection='one device error status (symbolic code 1..15) at a symbolically chosen erase / set-address / write operation of images of 1..3 pages; a second injection cannot occur once the run has stopped',
+                              busy='0..%d polls' % K),
+                  stubs=DFU_STUBS, assumptions=DFU_STUBS,
+                  outside=['longer images', 'USB transport errors'])
